@@ -333,6 +333,39 @@ func C14(ctx *Ctx) {
 					opEvs = append(opEvs, opEv{tag, iv, e.Guards})
 				}
 			}
+			// the byte column: outside the operand renderer the instruction's bytes are shown in order, each once -
+			// the opcode first (a constant in this cell), then ib1 .. ib(L-1); a renderer that shows none is not judged
+			if want >= 1 && ref.Mode != "imm8s" {
+				var col []string
+				for _, e := range o.ev {
+					inR := isModeRenderer(e.Caller)
+					for _, f := range e.Stack {
+						if isModeRenderer(f) {
+							inR = true
+						}
+					}
+					if inR {
+						continue
+					}
+					for _, v := range e.Vals {
+						if iv, ok := v.(*absint.Int); ok && iv.W == 8 {
+							switch k := iv.Lin.Key(); k {
+							case "0+ib1", "0+ib2", "0+ib3":
+								col = append(col, k[2:])
+							}
+						}
+					}
+				}
+				if len(col) > 0 {
+					var wantCol []string
+					for i := 1; i < want; i++ {
+						wantCol = append(wantCol, fmt.Sprintf("ib%d", i))
+					}
+					if strings.Join(col, ",") != strings.Join(wantCol, ",") {
+						order.add(fmt.Sprintf("%s:byte-column", rs), c.Opcode, pos, fmt.Sprintf("cell %s: the byte column shows [%s] after the opcode, want [%s]", c, strings.Join(col, ","), strings.Join(wantCol, ",")))
+					}
+				}
+			}
 			// one rendering per consistent path through the renderer: the distinct
 			// guard sets seen are the paths; an event belongs to a path unless one of
 			// its guards contradicts it
